@@ -106,6 +106,52 @@ fn run(op: &str, l: &V, r: &V, n: i32, prec: Option<usize>) -> String {
             _ => "BADARG".into() };
     }
     match op {
+        "add_rr" => binop!(l, r, |a, b| d(&a + &b)),
+        "add_rv" => binop!(l, r, |a, b| d(&a + b)),
+        "add_vr" => binop!(l, r, |a, b| d(a + &b)),
+        "sub_rr" => binop!(l, r, |a, b| d(&a - &b)),
+        "sub_rv" => binop!(l, r, |a, b| d(&a - b)),
+        "sub_vr" => binop!(l, r, |a, b| d(a - &b)),
+        "mul_rr" => binop!(l, r, |a, b| d(&a * &b)),
+        "mul_rv" => binop!(l, r, |a, b| d(&a * b)),
+        "mul_vr" => binop!(l, r, |a, b| d(a * &b)),
+        "div_rr" => binop!(l, r, |a, b| d(&a / &b)),
+        "div_rv" => binop!(l, r, |a, b| d(&a / b)),
+        "div_vr" => binop!(l, r, |a, b| d(a / &b)),
+        "rem_rr" => binop!(l, r, |a, b| d(&a % &b)),
+        "rem_rv" => binop!(l, r, |a, b| d(&a % b)),
+        "rem_vr" => binop!(l, r, |a, b| d(a % &b)),
+        "checked_add_rr" => binop!(l, r, |a, b| od(CheckedAdd::checked_add(&a, &b))),
+        "checked_add_rv" => binop!(l, r, |a, b| od(CheckedAdd::checked_add(&a, b))),
+        "checked_add_vr" => binop!(l, r, |a, b| od(CheckedAdd::checked_add(a, &b))),
+        "checked_sub_rr" => binop!(l, r, |a, b| od(CheckedSub::checked_sub(&a, &b))),
+        "checked_sub_rv" => binop!(l, r, |a, b| od(CheckedSub::checked_sub(&a, b))),
+        "checked_sub_vr" => binop!(l, r, |a, b| od(CheckedSub::checked_sub(a, &b))),
+        "checked_mul_rr" => binop!(l, r, |a, b| od(CheckedMul::checked_mul(&a, &b))),
+        "checked_mul_rv" => binop!(l, r, |a, b| od(CheckedMul::checked_mul(&a, b))),
+        "checked_mul_vr" => binop!(l, r, |a, b| od(CheckedMul::checked_mul(a, &b))),
+        "checked_div_rr" => binop!(l, r, |a, b| od(CheckedDiv::checked_div(&a, &b))),
+        "checked_div_rv" => binop!(l, r, |a, b| od(CheckedDiv::checked_div(&a, b))),
+        "checked_div_vr" => binop!(l, r, |a, b| od(CheckedDiv::checked_div(a, &b))),
+        "checked_rem_rr" => binop!(l, r, |a, b| od(CheckedRem::checked_rem(&a, &b))),
+        "checked_rem_rv" => binop!(l, r, |a, b| od(CheckedRem::checked_rem(&a, b))),
+        "checked_rem_vr" => binop!(l, r, |a, b| od(CheckedRem::checked_rem(a, &b))),
+        "eq_rr" => binop!(l, r, |a, b| format!("B:{}", (&a == &b) as u8)),
+        "ne" => binop!(l, r, |a, b| format!("B:{}", (a != b) as u8)),
+        "lt" => binop!(l, r, |a, b| format!("B:{}", (a < b) as u8)),
+        "le" => binop!(l, r, |a, b| format!("B:{}", (a <= b) as u8)),
+        "gt" => binop!(l, r, |a, b| format!("B:{}", (a > b) as u8)),
+        "ge" => binop!(l, r, |a, b| format!("B:{}", (a >= b) as u8)),
+        "max" => match (l, r) { (V::D(a), V::D(b)) => d(core::cmp::max(*a, *b)), _ => "BADARG".into() },
+        "min" => match (l, r) { (V::D(a), V::D(b)) => d(core::cmp::min(*a, *b)), _ => "BADARG".into() },
+        "is_negative" => match l { V::D(a) => format!("B:{}", a.is_negative() as u8), _ => "BADARG".into() },
+        "is_positive" => match l { V::D(a) => format!("B:{}", a.is_positive() as u8), _ => "BADARG".into() },
+        "numerator" => match l { V::D(a) => format!("I:{}", a.numerator()), _ => "BADARG".into() },
+        "denominator" => match l { V::D(a) => format!("I:{}", a.denominator()), _ => "BADARG".into() },
+        "try_from_str" => match l { V::S(s) => match Decimal::try_from(s.as_str()) { Ok(v) => d(v), Err(e) => format!("ERR:{:?}", e) }, _ => "BADARG".into() },
+        "try_from_string" => match l { V::S(s) => match Decimal::try_from(s.clone()) { Ok(v) => d(v), Err(e) => format!("ERR:{:?}", e) }, _ => "BADARG".into() },
+        "parse" => match l { V::S(s) => match s.parse::<Decimal>() { Ok(v) => d(v), Err(e) => format!("ERR:{:?}", e) }, _ => "BADARG".into() },
+        "from_u128" => match l { V::S(s) => match s.parse::<u128>() { Ok(u) => match Decimal::try_from(u) { Ok(v) => d(v), Err(e) => format!("ERR:{:?}", e) }, Err(_) => "BADARG".into() }, _ => "BADARG".into() },
         "add" => binop!(l, r, |a, b| d(a + b)),
         "sub" => binop!(l, r, |a, b| d(a - b)),
         "mul" => binop!(l, r, |a, b| d(a * b)),
